@@ -29,8 +29,8 @@ from common import coq_eval
 PROP_FILE = 'theories/Properties/C11.v'
 MODEL_FILES = ['theories/Model/History.v']
 GEN_GROUPS = []
-RULE = ('per class 8 (quick) / 80 (thorough) random call histories of length 1-8 drawn from ctx.rng: styles guard (fit/summary '
-        'before the required specifications), respecify (other formula / bound / stabilized flag / distribution), refit (other plan: '
+RULE = ('per class 12 (quick) / 120 (thorough) random call histories of length 1-8 drawn from ctx.rng: styles guard (fit/summary '
+        'before the required specifications), toggle (specify with bound / user learner, fit, specify again without, fit), respecify (other formula / bound / stabilized flag / distribution), refit (other plan: '
         "'all' then 'none', p=0.8 then p=0.1, other seed, other solver), random; summary() and every diagnostic/plot method interleaved "
         '(Agg backend, stdout captured); data n=40-160 rows, binary/normal/poisson outcome, missing outcomes, range/shifted/shuffled/str '
         'index.  The caller\'s objects are compared with a deep snapshot (values incl. NaN positions, columns, dtypes, index, ndarray '
@@ -491,6 +491,7 @@ class Fam:
     diags = []            # (method label, required slots, needs a completed fit, callable(obj))
     summary = True
     causal = True         # refit independence is part of the property for this class
+    bound_off = False     # the "no truncation" value of the class's bound argument
     weight = 1            # relative number of histories
 
     def gen_cfg(self, rng):
@@ -513,7 +514,12 @@ class Fam:
 
 
 def _model_bound(rng, a=False):
-    return {'model': ('A + ' if a else '') + rng.choice(RHS), 'bound': rng.choice(BOUNDS)}
+    return {'model': ('A + ' if a else '') + rng.choice(RHS), 'bound': rng.choice(BOUNDS), 'custom': rng.random() < 0.15}
+
+
+def _learner(binary=True):
+    from sklearn.linear_model import LogisticRegression, LinearRegression
+    return LogisticRegression(penalty=None, solver='lbfgs', max_iter=500) if binary else LinearRegression()
 
 
 class FamIPTW(Fam):
@@ -885,16 +891,18 @@ class FamAIPTW(Fam):
         if slot == 0:
             return _model_bound(rng)
         if slot == 1:
-            return {'model': 'A + ' + rng.choice(RHS), 'dist': rng.choice(['gaussian', 'gaussian', 'poisson']) if cfg['outcome'] == 'normal' else 'gaussian'}
+            return {'model': 'A + ' + rng.choice(RHS), 'dist': rng.choice(['gaussian', 'gaussian', 'poisson']) if cfg['outcome'] == 'normal' else 'gaussian',
+                    'custom': rng.random() < 0.15}
         return _model_bound(rng, a=True)
 
     def do_spec(self, o, slot, s, inp):
         if slot == 0:
-            o.exposure_model(s['model'], bound=s['bound'], print_results=False)
+            o.exposure_model(s['model'], custom_model=_learner() if s['custom'] else None, bound=s['bound'], print_results=False)
         elif slot == 1:
-            o.outcome_model(s['model'], continuous_distribution=s['dist'], print_results=False)
+            o.outcome_model(s['model'], custom_model=_learner(self.cfg['outcome'] == 'binary') if s['custom'] else None,
+                            continuous_distribution=s['dist'], print_results=False)
         else:
-            o.missing_model(s['model'], bound=s['bound'], print_results=False)
+            o.missing_model(s['model'], custom_model=_learner() if s['custom'] else None, bound=s['bound'], print_results=False)
 
     def gen_fit(self, rng, cfg):
         return {}
@@ -930,7 +938,8 @@ class FamTMLE(FamAIPTW):
 
     def do_spec(self, o, slot, s, inp):
         if slot == 1:
-            o.outcome_model(s['model'], bound=s['bound'], continuous_distribution=s['dist'], print_results=False)
+            o.outcome_model(s['model'], custom_model=_learner(self.cfg['outcome'] == 'binary') if s['custom'] else None, bound=s['bound'],
+                            continuous_distribution=s['dist'], print_results=False)
         else:
             FamAIPTW.do_spec(self, o, slot, s, inp)
 
@@ -956,13 +965,14 @@ class FamStochTMLE(Fam):
         if slot == 0:
             return _model_bound(rng)
         return {'model': 'A + ' + rng.choice(RHS), 'dist': rng.choice(['gaussian', 'poisson']) if cfg['outcome'] == 'normal' else 'gaussian',
-                'bound': rng.choice([False, False, 0.01]) if cfg['outcome'] == 'normal' else False}
+                'bound': rng.choice([False, False, 0.01]) if cfg['outcome'] == 'normal' else False, 'custom': rng.random() < 0.15}
 
     def do_spec(self, o, slot, s, inp):
         if slot == 0:
-            o.exposure_model(s['model'], bound=s['bound'])
+            o.exposure_model(s['model'], custom_model=_learner() if s['custom'] else None, bound=s['bound'])
         else:
-            o.outcome_model(s['model'], bound=s['bound'], continuous_distribution=s['dist'])
+            o.outcome_model(s['model'], custom_model=_learner(self.cfg['outcome'] == 'binary') if s['custom'] else None, bound=s['bound'],
+                            continuous_distribution=s['dist'])
 
     def gen_fit(self, rng, cfg):
         a = dict(rng.choice(PLANS))
@@ -1036,6 +1046,7 @@ class FamSNM(Fam):
 
 class FamIPSW(Fam):
     name = 'IPSW'
+    bound_off = None
     slots = ['sampling_model', 'treatment_model']
     required = [0]
 
@@ -1098,6 +1109,7 @@ class FamGTransport(Fam):
 
 class FamAIPSW(Fam):
     name = 'AIPSW'
+    bound_off = None
     slots = ['sampling_model', 'outcome_model', 'treatment_model']
     required = [0, 1]
 
@@ -1182,16 +1194,39 @@ def families():
 
 
 # ================================================================================================ histories
-def gen_history(fam, rng, cfg):
+def gen_history(fam, rng, cfg, style=None):
     avail = [s for s in range(len(fam.slots)) if fam.slot_ok(s, cfg)]
     req = [s for s in fam.required]
     opt = [s for s in avail if s not in req]
     used_once = set()
 
+    last = {}
+
     def spec(s):
         if s in fam.once_slots:
             used_once.add(s)
-        return ['spec', s, fam.gen_spec(rng, s, cfg)]
+        new = fam.gen_spec(rng, s, cfg)
+        if s in last and rng.random() < 0.65:            # respecification: change ONE aspect of the specification in force
+            old = dict(last[s])
+            keys = [k for k in ('bound', 'stabilized', 'custom', 'model', 'den', 'dist', 'which', 'num', 'restriction') if k in old]
+            k = rng.choice(keys)
+            if k in ('bound', 'custom') and old[k]:
+                old[k] = None if (k == 'bound' and new.get('bound', False) is None) else False     # switch truncation / learner OFF again
+                if k == 'bound' and new.get('bound') is None:
+                    old[k] = None
+            elif k == 'stabilized':
+                old[k] = not old[k]
+                if not old[k]:
+                    old['num'] = None if old.get('num') is None else '1'
+                    if fam.name == 'IPSW' and s == 0:
+                        old['bound'] = None
+            else:
+                old[k] = new[k]
+                if k == 'num' and not old.get('stabilized', True):
+                    old['num'] = None if new['num'] is None else '1'
+            new = old
+        last[s] = new
+        return ['spec', s, new]
 
     def fit():
         return ['fit', fam.gen_fit(rng, cfg)]
@@ -1214,9 +1249,38 @@ def gen_history(fam, rng, cfg):
         for _ in range(rng.randint(0, 3)):
             ops.append(pure())
         return style, [o for o in ops if o][:8]
-    style = rng.choice(['guard', 'respec', 'refit', 'random', 'random'])
+    style = style or rng.choice(['guard', 'respec', 'refit', 'toggle', 'random', 'random'])
     order = list(req)
     rng.shuffle(order)
+    if style == 'toggle':
+        # documented pattern: specify with truncation / a user learner / stabilisation, fit, specify again WITHOUT them, fit
+        rich = {}
+        for sl in order + [x for x in opt if rng.random() < 0.5]:
+            new = fam.gen_spec(rng, sl, cfg)
+            for _ in range(30):
+                if 'bound' not in new or new['bound']:
+                    break
+                new = fam.gen_spec(rng, sl, cfg)
+            if 'custom' in new:
+                new['custom'] = rng.random() < 0.6
+            rich[sl] = new
+            ops.append(['spec', sl, new])
+            if sl in fam.once_slots:
+                used_once.add(sl)
+        ops.append(fit())
+        tog = [sl for sl in rich if sl not in fam.once_slots and (rich[sl].get('bound') or rich[sl].get('custom'))]
+        rng.shuffle(tog)
+        for sl in tog[:rng.randint(1, max(1, len(tog)))]:
+            off = dict(rich[sl])
+            if off.get('bound'):
+                off['bound'] = fam.bound_off
+            if off.get('custom'):
+                off['custom'] = False
+            ops.append(['spec', sl, off])
+        ops.append(fit() if rng.random() < 0.5 else list(ops[len(rich)]))
+        if fam.summary and rng.random() < 0.5:
+            ops.append(['summary'])
+        return style, ops[:8]
     if style == 'guard':
         k = rng.randrange(len(order))                  # strict subset of the required slots first
         for s in order[:k]:
@@ -1531,15 +1595,60 @@ def check_history(fam, case, ops, model, coding, info=None):
                 la, lb = ta.splitlines(), tb.splitlines()
                 k = next((j for j in range(min(len(la), len(lb))) if la[j] != lb[j]), min(len(la), len(lb)))
                 d = 'summary() text line %d: %r vs %r' % (k, la[k] if k < len(la) else None, lb[k] if k < len(lb) else None)
-                attr = 'summary'
+                if ta.startswith('RAISED') or tb.startswith('RAISED'):
+                    attr = 'summary[raises]'
+                else:
+                    sa_, sb_ = (la[k] if k < len(la) else ''), (lb[k] if k < len(lb) else '')
+                    j = next((i for i in range(min(len(sa_), len(sb_))) if sa_[i] != sb_[i]), 0)
+                    lab = sa_[:j].split(':')[-2].split('  ')[-1].strip() if ':' in sa_[:j] else sa_.split(':')[0].strip()
+                    attr = 'summary[%s]' % (lab or 'text')
         if d:
-            probs.append(('%s.history-dependent.%s' % (fam.name, attr), 'after the history the object differs from a fresh object given only [%s]: %s'
-                          % ('; '.join(describe(fam, case, [o]).split('] ', 1)[1] for o in nf_ops), d)))
+            probs.append(('%s.history-dependent.%s' % (fam.name, attr), 'object after the history vs a fresh object: %s  (fresh object given only [%s])'
+                          % (d, '; '.join(describe(fam, case, [o]).split('] ', 1)[1] for o in nf_ops))))
     return probs, h
 
 
 # ================================================================================================ the run
 IMPORTS = ['Zepid.Model.History']
+_PATCH_NOTE = []
+
+
+def _maybe_patch():
+    """development switch, OFF by default: C11_PATCH=1 applies the proposed one-line repairs IN THIS PROCESS ONLY (nothing in
+    /repo is touched) to show that the reported history dependences disappear with them"""
+    import os
+    if os.environ.get('C11_PATCH') != '1' or _PATCH_NOTE:
+        return
+    import inspect
+    import sys as _sys
+    import zepid.causal.doublyrobust  # noqa
+    import zepid.causal.gformula  # noqa
+    import zepid.causal.snm  # noqa
+
+    def patch(modname, clsname, meth, edits):
+        mod = _sys.modules[modname]
+        cls = getattr(mod, clsname)
+        src = 'if True:\n' + inspect.getsource(getattr(cls, meth))
+        for old, new in edits:
+            assert old in src, (clsname, meth, old)
+            src = src.replace(old, new, 1)
+        src = src.replace('self.__mweight', 'self._%s__mweight' % clsname)
+        ns = {}
+        exec(compile(src, '<c11 patch %s.%s>' % (clsname, meth), 'exec'), mod.__dict__, ns)
+        setattr(cls, meth, ns[meth])
+
+    for cname, mod in (('AIPTW', 'zepid.causal.doublyrobust.AIPW'), ('TMLE', 'zepid.causal.doublyrobust.TMLE')):
+        patch(mod, cname, 'exposure_model', [('        if custom_model is None:', '        self._exp_model_custom = False\n        if custom_model is None:')])
+        patch(mod, cname, 'outcome_model', [('        if custom_model is None:', '        self._out_model_custom = False\n        if custom_model is None:')])
+        patch(mod, cname, 'missing_model', [('        if custom_model is None:', '        self._miss_model_custom = False\n        if custom_model is None:')])
+    patch('zepid.causal.doublyrobust.TMLE', 'StochasticTMLE', 'exposure_model',
+          [('        if custom_model is None:', '        self._specified_bound_ = None\n        self._exp_model_custom = False\n        if custom_model is None:')])
+    patch('zepid.causal.snm.g_estimation', 'GEstimationSNM', 'fit',
+          [("        if solver == 'closed':", "        if solver == 'closed':\n            self._scipy_solver_obj = None\n            self._alphas = None")])
+    patch('zepid.causal.gformula.TimeFixed', 'TimeFixedGFormula', 'fit_stochastic',
+          [('        if self._outcome_model is None:', '        self.predicted_df = None\n        if self._outcome_model is None:')])
+    _PATCH_NOTE.append('C11_PATCH=1: proposed repairs applied in-process (AIPTW/TMLE/StochasticTMLE custom/bound flags, GEstimationSNM.fit, '
+                       'TimeFixedGFormula.fit_stochastic)')
 
 
 def new_info():
@@ -1551,9 +1660,10 @@ def make_cases(ctx, fams, per_class):
     cases = []
     for fam in fams:
         k = max(2, int(round(per_class * fam.weight)))
-        for _ in range(k):
+        styles = ['guard', 'respec', 'refit', 'toggle', 'random', 'random']
+        for j in range(k):
             cfg = fam.gen_cfg(ctx.rng)
-            style, ops = gen_history(fam, ctx.rng, cfg)
+            style, ops = gen_history(fam, ctx.rng, cfg, style=styles[j % len(styles)] if fam.slots else None)
             cases.append({'fam': fams.index(fam), 'name': fam.name, 'data_seed': ctx.rng.randrange(2 ** 31), 'cfg': cfg, 'ops': ops, 'style': style})
     return cases
 
@@ -1610,7 +1720,7 @@ def shrink(fam, case, key):
         return any(k == key for k, _ in probs)
     changed_ = True
     rounds = 0
-    while changed_ and len(ops) > 1 and rounds < 3:
+    while changed_ and len(ops) > 1 and rounds < 8:
         changed_ = False
         rounds += 1
         for i in range(len(ops)):
@@ -1625,7 +1735,7 @@ def shrink(fam, case, key):
 def history_part(ctx, fails, info, cases=None):
     fams = families()
     if cases is None:
-        cases = make_cases(ctx, fams, 8 if ctx.quick else 80)
+        cases = make_cases(ctx, fams, 12 if ctx.quick else 120)
     codings, models = evaluate_models(ctx, fams, cases, 'c11h')
     per_fam = {}
     for c, cd, m in zip(cases, codings, models):
@@ -1719,6 +1829,8 @@ def finish_info(ctx, info):
 
 def run(ctx):
     fails, info = [], new_info()
+    _maybe_patch()
+    ctx.notes += _PATCH_NOTE
     fams = history_part(ctx, fails, info)
     for part in EXTRA_PARTS:
         part(ctx, fails, info)
@@ -1729,6 +1841,7 @@ def run(ctx):
 
 def replay(ctx, payload):
     fails, info = [], new_info()
+    _maybe_patch()
     if payload and payload.get('part') == 'history':
         history_part(ctx, fails, info, cases=[payload['case']])
     elif payload and payload.get('part') in PART_BY_NAME:
@@ -1964,8 +2077,8 @@ def function_table():
             return inp, lambda: zg.spaghetti_plot(inp['df'], 'id', 'W', 't')
         if which == 'dynamic_risk_plot':
             t = list(range(1, 9))
-            r1 = pd.Series(np.cumsum([0.02 * rng.random() + 0.01 for _ in t]), index=t)
-            r0 = pd.Series(np.cumsum([0.02 * rng.random() + 0.01 for _ in t]), index=t)
+            r1 = pd.DataFrame({'risk': np.cumsum([0.02 * rng.random() + 0.01 for _ in t])}, index=pd.Index(t, name='timeline'))
+            r0 = pd.DataFrame({'risk': np.cumsum([0.02 * rng.random() + 0.01 for _ in t])}, index=pd.Index(t, name='timeline'))
             inp = {'r1': r1, 'r0': r0}
             return inp, lambda: zg.dynamic_risk_plot(inp['r1'], inp['r0'], measure=rng.choice(['RD', 'RR']), loess=rng.random() < 0.5)
         if which == 'zipper_plot':
